@@ -1,5 +1,5 @@
 """C16 - push queue: accepted values are delivered once, in order, within capacity."""
-import itertools, os, re
+import itertools, os, re, subprocess
 from vlib import Case, Stream, BUILD, model_cmd
 
 ID = "C16"
@@ -98,6 +98,47 @@ def gen_case(rng, idx, policy=None, cap=None, n=None):
     return Case(["case %d" % idx, "cfg %d %s" % (cap, policy), "sched " + " ".join(steps)], {"kind": "random"})
 
 
+def gen_nested(rng, idx):
+    """schedules with one nested step at a protocol point (only when the optional
+    HGRAPH_VERIF_POINTs are compiled in): a cycle / stop request between a send's admission and its
+    mark, a try_send between the consumer's pop and its re-arm.  No sender is parked meanwhile."""
+    policy = rng.choice(["q"] * 8 + ["b", "c"])
+    cap = rng.choice([0, 0, 1, 2, 2, 3])
+    steps = ["S"]
+    v = [0]
+
+    def val():
+        v[0] += 1
+        return v[0]
+    rstop = False
+    for _ in range(rng.randint(4, 22)):
+        r = rng.random()
+        if r < 0.22:
+            steps.append("t%d:%d" % (rng.randint(1, 3), val()))
+        elif r < 0.46:
+            inner = "r" if (rng.random() < 0.08 and not rstop) else "c"
+            rstop = rstop or inner == "r"
+            steps.append("t%d:%d{%s}" % (rng.randint(1, 3), val(), inner))
+        elif r < 0.66:
+            steps.append("c")
+        elif r < 0.92:
+            steps.append("c{t%d:%d}" % (rng.randint(1, 3), val()))
+        elif r < 0.95:
+            steps.append("r"); rstop = True
+        else:
+            steps.append("X")
+    return Case(["case %d" % idx, "cfg %d %s" % (cap, policy), "sched " + " ".join(steps)], {"kind": "points"})
+
+
+def have_points():
+    """does the build under test contain the optional protocol points of push_source_node.cpp?"""
+    try:
+        r = subprocess.run([os.path.join(BUILD, "hgv_push")], input="points\n", capture_output=True, text=True, timeout=60)
+        return "points=1" in r.stdout
+    except Exception:
+        return False
+
+
 def exhaustive(idx0):
     """every order of 2 producers x 2 messages (program order kept) and 4 cycles, capacities 0,1,2"""
     cases = []
@@ -143,18 +184,23 @@ def streams(rng, tier, seed):
             corpus.append(Case([l.rstrip("\n") for l in open(os.path.join(cdir, f)) if l.strip()], {"kind": "corpus"}))
     # real threads against the real run loop (no hooks, no model: monitor only)
     stress = []
-    for i in range(24 if q else 300):
+    for i in range(16 if q else 300):
         stress.append(Case(["case %d" % (100000 + i),
                             "stress %d %d %d %d" % (rng.choice([2, 3, 4, 6]), rng.choice([20, 100, 400]),
                                                     rng.choice([0, 1, 1, 2, 3, 16]), rng.choice([0, 1, 2]))],
                            {"kind": "threads"}))
-    return [Stream("push", [os.path.join(BUILD, "hgv_push")], model_cmd("C16"), corpus + cases, timeout=1800),
-            Stream("push-threads", [os.path.join(BUILD, "hgv_push")], None, stress, timeout=1800)]
+    out = [Stream("push", [os.path.join(BUILD, "hgv_push")], model_cmd("C16"), corpus + cases, timeout=1800),
+           Stream("push-threads", [os.path.join(BUILD, "hgv_push")], None, stress, timeout=1800)]
+    if have_points():
+        nested = [gen_nested(rng, 200000 + i) for i in range(300 if q else 8000)]
+        out.append(Stream("push-points", [os.path.join(BUILD, "hgv_push")], model_cmd("C16"), nested, timeout=1800))
+    return out
 
 
 # ---------------------------------------------------------------- monitor
 
-_STEP = re.compile(r"^(S|X|r|c|[tb]\d+:\d+)(?:(\d+):(\S+)|:-|=(\S+))?((?: \+\S+)*) p(\d+) f([01])$")
+_PART = re.compile(r"^([^{ ]+)(?:\{(.*)\})?((?: \+\S+)*) p(\d+) f([01])$")
+_EVENT = re.compile(r"^(S|X|r|c|[tb]\d+:\d+)(?:(\d+):(\S+)|:-|=(\S+))?$")
 
 
 def _vals(txt):
@@ -163,6 +209,107 @@ def _vals(txt):
     if txt.startswith("["):
         return [int(x) for x in txt[1:-1].split(",") if x]
     return [int(txt)]
+
+
+class _State:
+    def __init__(self, cap, policy):
+        self.cap, self.policy = cap, policy
+        self.started = self.stopped = self.rstop = False
+        self.accepted, self.delivered, self.deliveries = [], [], []
+        self.parked, self.who, self.producers_delivered = {}, {}, set()
+        self.p, self.f = 0, 0
+        self.bad, self.feats = [], set()
+        self.bounded = cap > 0 and policy != "c"
+
+    def event(self, text, nested=False):
+        """apply one step's own effect (not its status); returns False when unreadable"""
+        m = _EVENT.match(text)
+        if not m:
+            self.bad.append("[trace] unreadable step %r" % text)
+            return False
+        st, ctime, cvals, res = m.group(1), m.group(2), m.group(3), m.group(4)
+        bad, feats = self.bad, self.feats
+        running = self.started and not self.stopped
+        if st == "S":
+            if res is None:
+                self.started = True
+        elif st == "X":
+            if res is None:
+                self.stopped = True
+        elif st == "r":
+            self.rstop = True
+        elif st == "c":
+            if ctime is not None:
+                t = int(ctime)
+                if not running or self.rstop:
+                    bad.append("[once] cycle %d ran while the graph was not running" % t)
+                if self.deliveries and t <= self.deliveries[-1][0]:
+                    bad.append("[once] cycle time %d not after %d" % (t, self.deliveries[-1][0]))
+                if cvals != "-":
+                    if "," in cvals and not cvals.startswith("["):
+                        bad.append("[once] more than one delivery in cycle %d: %s" % (t, cvals))
+                    vs = _vals(cvals.split(",")[0] if not cvals.startswith("[") else cvals)
+                    self.deliveries.append((t, vs))
+                    self.delivered.extend(vs)
+                    self.p = max(0, self.p - len(vs))
+                    feats.add("cycle-delivers")
+                    if self.policy == "q" and len(vs) != 1:
+                        bad.append("[once] queue policy delivered %d values in one cycle" % len(vs))
+                    if len(vs) > 1:
+                        feats.add("burst-tuple")
+                    for x in vs:
+                        self.producers_delivered.add(self.who.get(x))
+                else:
+                    feats.add("cycle-empty")
+                    if self.p > 0 and self.f == 1:
+                        bad.append("[lost] cycle %d had %d pending value(s) and the flag set but delivered nothing" % (t, self.p))
+        else:
+            kind, prod, val = st[0], int(st[1:st.index(":")]), int(st[st.index(":") + 1:])
+            self.who[val] = prod
+            full = self.bounded and self.p >= self.cap
+            stopped_like = (not self.started) or self.stopped or self.rstop
+            if res == "1":
+                self.accepted.append(val)
+                feats.add("accepted-%s" % ("try" if kind == "t" else "blocking"))
+                if stopped_like:
+                    bad.append("[stop] %s accepted although the source is %s" % (st, "not started" if not self.started else "stopped"))
+                if full:
+                    bad.append("[cap] %s accepted although %d value(s) were pending (capacity %d)" % (st, self.p, self.cap))
+            elif res == "0":
+                if kind == "t":
+                    if not (stopped_like or full):
+                        bad.append("[refused] %s refused although running with %d pending (capacity %d)" % (st, self.p, self.cap))
+                    feats.add("refused-full" if (full and not stopped_like) else "refused-stopped")
+                else:
+                    if not stopped_like:
+                        bad.append("[blocking] %s failed although the source has not stopped" % st)
+                    feats.add("blocking-failed-stopped")
+            elif res == "B":
+                self.parked[prod] = val
+                feats.add("sender-parked")
+                if not full or stopped_like:
+                    bad.append("[blocking] %s parked although the queue is not at capacity / not running" % st)
+            elif res == "busy":
+                feats.add("busy")
+            else:
+                bad.append("[trace] send result %r" % res)
+        return True
+
+    def status(self, st, p, f, mid=False):
+        """checks on the state reported after a step; `mid`: some thread is inside an operation"""
+        bad = self.bad
+        running = self.started and not self.stopped
+        if self.bounded and p > self.cap:
+            bad.append("[cap] %d values pending with capacity %d after %s" % (p, self.cap, st))
+        if running and self.policy != "c" and p != len(self.accepted) - len(self.delivered):
+            bad.append("[prefix] pending_items %d but accepted-delivered = %d after %s"
+                       % (p, len(self.accepted) - len(self.delivered), st))
+        if not mid:
+            if running and not self.rstop and p > 0 and f == 0:
+                bad.append("[lost] %d value(s) pending, every thread idle, and the executor flag is clear after %s" % (p, st))
+            if running and not self.rstop and self.parked and not (self.bounded and p >= self.cap):
+                bad.append("[blocking] sender still parked with room in the queue after %s" % st)
+        self.p, self.f = p, f
 
 
 def _analyse_stress(case, out):
@@ -198,7 +345,6 @@ def _analyse_stress(case, out):
 def _analyse(case, out):
     if case.meta.get("kind") == "threads" or any(l.startswith("stress") for l in case.lines):
         return _analyse_stress(case, out)
-    bad, feats = [], set()
     cap, policy, line = None, None, None
     for ln, o in zip(case.lines, out):
         w = ln.split()
@@ -207,86 +353,31 @@ def _analyse(case, out):
         if w and w[0] == "sched":
             line = o
     if line is None or cap is None:
-        return ["[trace] no schedule output"], feats
+        return ["[trace] no schedule output"], set()
     if line == "bad-op" or line.startswith("err:"):
-        return ["[trace] harness rejected the schedule: " + line[:80]], feats
+        return ["[trace] harness rejected the schedule: " + line[:80]], set()
+    S = _State(cap, policy)
+    bad, feats = S.bad, S.feats
     parts = line.split(" | ")
-    started = stopped = rstop = False
-    accepted, delivered = [], []        # delivered: flattened values
-    deliveries = []                     # (time, [values])
-    parked = {}                         # producer -> value
-    producers_delivered = set()
-    who = {}
-    prev_p, prev_f = 0, 0
-    bounded = cap > 0 and policy != "c"
     for part in parts[:-1]:
-        m = _STEP.match(part)
+        m = _PART.match(part)
         if not m:
             return ["[trace] unreadable step %r" % part], feats
-        st, ctime, cvals, res, extra, p, f = m.group(1), m.group(2), m.group(3), m.group(4), m.group(5), int(m.group(6)), int(m.group(7))
-        running = started and not stopped
-        if st == "S":
-            if res is None:
-                started = True
-        elif st == "X":
-            if res is None:
-                stopped = True
-        elif st == "r":
-            rstop = True
-        elif st == "c":
-            if ctime is not None:
-                t = int(ctime)
-                if not running or rstop:
-                    bad.append("[once] cycle %d ran while the graph was not running" % t)
-                if deliveries and t <= deliveries[-1][0]:
-                    bad.append("[once] cycle time %d not after %d" % (t, deliveries[-1][0]))
-                if cvals != "-":
-                    if "," in cvals and not cvals.startswith("["):
-                        bad.append("[once] more than one delivery in cycle %d: %s" % (t, cvals))
-                    vs = _vals(cvals.split(",")[0] if not cvals.startswith("[") else cvals)
-                    deliveries.append((t, vs))
-                    delivered.extend(vs)
-                    feats.add("cycle-delivers")
-                    if policy == "q" and len(vs) != 1:
-                        bad.append("[once] queue policy delivered %d values in one cycle" % len(vs))
-                    if len(vs) > 1:
-                        feats.add("burst-tuple")
-                    for x in vs:
-                        producers_delivered.add(who.get(x))
-                else:
-                    feats.add("cycle-empty")
-                    if prev_p > 0 and prev_f == 1:
-                        bad.append("[lost] cycle %d had %d pending value(s) and the flag set but delivered nothing" % (t, prev_p))
-        else:
-            kind, prod, val = st[0], int(st[1:st.index(":")]), int(st[st.index(":") + 1:])
-            who[val] = prod
-            full = bounded and prev_p >= cap
-            stopped_like = (not started) or stopped or rstop
-            if res == "1":
-                accepted.append(val)
-                feats.add("accepted-%s" % ("try" if kind == "t" else "blocking"))
-                if stopped_like:
-                    bad.append("[stop] %s accepted although the source is %s" % (st, "not started" if not started else "stopped"))
-                if full:
-                    bad.append("[cap] %s accepted although %d value(s) were pending (capacity %d)" % (st, prev_p, cap))
-            elif res == "0":
-                if kind == "t":
-                    if not (stopped_like or full):
-                        bad.append("[refused] %s refused although running with %d pending (capacity %d)" % (st, prev_p, cap))
-                    feats.add("refused-full" if (full and not stopped_like) else "refused-stopped")
-                else:
-                    if not stopped_like:
-                        bad.append("[blocking] %s failed although the source has not stopped" % st)
-                    feats.add("blocking-failed-stopped")
-            elif res == "B":
-                parked[prod] = val
-                feats.add("sender-parked")
-                if not full or stopped_like:
-                    bad.append("[blocking] %s parked although the queue is not at capacity / not running" % st)
-            elif res == "busy":
-                feats.add("busy")
+        outer, inner, extra, p, f = m.group(1), m.group(2), m.group(3), int(m.group(4)), int(m.group(5))
+        if not S.event(outer):
+            return bad, feats
+        st = outer
+        if inner is not None:
+            if inner == "-":
+                feats.add("point-not-reached")
             else:
-                bad.append("[trace] send result %r" % res)
+                mi = re.match(r"^(\S+) p(\d+) f([01])$", inner)
+                if not mi:
+                    return ["[trace] unreadable nested step %r" % inner], feats
+                feats.add("nested-in-" + ("cycle" if outer.startswith("c") else "send"))
+                if not S.event(mi.group(1), nested=True):
+                    return bad, feats
+                S.status(mi.group(1), int(mi.group(2)), int(mi.group(3)), mid=True)
         for e in extra.split():
             if e == "+stuck":
                 bad.append("[blocking] a parked sender was not released although the queue has room or the source stopped")
@@ -296,29 +387,20 @@ def _analyse(case, out):
                 bad.append("[trace] completion %r" % e)
                 continue
             prod, val, r = int(m2.group(1)), int(m2.group(2)), m2.group(3)
-            parked.pop(prod, None)
+            S.parked.pop(prod, None)
             if r == "1":
-                accepted.append(val)
+                S.accepted.append(val)
                 feats.add("parked-sender-admitted")
-                if stopped:
+                if S.stopped:
                     bad.append("[stop] parked %d accepted after the stop" % val)
             elif r == "0":
                 feats.add("parked-sender-failed")
-                if not stopped:
+                if not S.stopped:
                     bad.append("[blocking] parked send of %d failed although the source has not stopped" % val)
             else:
                 bad.append("[blocking] parked send of %d threw" % val)
-        # state after the step
-        running = started and not stopped
-        if bounded and p > cap:
-            bad.append("[cap] %d values pending with capacity %d after %s" % (p, cap, st))
-        if running and policy != "c" and p != len(accepted) - len(delivered):
-            bad.append("[prefix] pending_items %d but accepted-delivered = %d after %s" % (p, len(accepted) - len(delivered), st))
-        if running and not rstop and p > 0 and f == 0:
-            bad.append("[lost] %d value(s) pending, every thread idle, and the executor flag is clear after %s" % (p, st))
-        if running and not rstop and parked and not (bounded and p >= cap):
-            bad.append("[blocking] sender still parked with room in the queue after %s" % st)
-        prev_p, prev_f = p, f
+        S.status(st, p, f)
+    accepted, delivered = S.accepted, S.delivered
     # the ordering properties
     if policy == "c":
         it = iter(accepted)
@@ -340,14 +422,14 @@ def _analyse(case, out):
         acc2 = [int(x) for x in m.group(2).split(",") if x]
         if acc2 != accepted:
             bad.append("[trace] summary accepted %s differs from the per-step results %s" % (acc2[:8], accepted[:8]))
-    if len({p for p in producers_delivered if p}) >= 2:
+    if len({p for p in S.producers_delivered if p}) >= 2:
         feats.add("multi-producer-delivery")
     feats.add("policy-" + policy)
     feats.add("cap-%d" % cap)
     feats.add("kind-" + case.meta.get("kind", "?"))
-    if stopped:
+    if S.stopped:
         feats.add("graph-stop")
-    if rstop:
+    if S.rstop:
         feats.add("request-stop")
     return bad, feats
 
